@@ -743,7 +743,7 @@ def main(tier, seed):
     progs = typed_corpus()
     ncur = len(progs)
     rng = random.Random(seed)
-    nrand = 200 if tier == "quick" else 2000
+    nrand = 200 if tier == "quick" else 8000
     for i in range(nrand):
         progs.append(random_typed(rng, i))
     K, max_paths = (1, 40) if tier == "quick" else (2, 150)
